@@ -3,12 +3,18 @@ harness module (which parses the enumerated newick strings with the real code an
 TimeTreeModel objects) have been imported - `import torch` spawns ldconfig / probes the temp dir, which
 CrossHair's audit wall rejects.  The wall stays engaged for the analysis itself.
 
-Float model: CrossHair 0.0.110 represents a float either as a z3 Real (98 %) or as an IEEE-754 double
-(2 %, z3 FP theory) and forks on that choice the first time a float meets a symbolic value - including
-`symbolic_int == 0.0`.  The FP branch answers `unknown` on to_fp(to_real(int)) terms, so no condition that
-touches a float can be "Confirmed over all paths".  With C06D_REALS=1 (default) the FP alternative is
-removed: floats are exact reals.  On the harness domain (dates = multiples of 0.25 below 1e6, or ints)
-every float64 operation of the analysed code is exact, so the real model is faithful there.
+Float model.  CrossHair 0.0.110 represents a symbolic float either as a z3 Real (RealBasedSymbolicFloat,
+chosen with 98 %) or as an IEEE-754 double in z3's FP theory (PreciseIeeeSymbolicFloat, 2 %); it forks on that
+choice the first time a float meets a symbolic value (even `symbolic_int == 0.0`) and it caps the verdict of
+every path that created a Real-based float at "unknown".  Measured on update_leaf_heights with three dates:
+the FP branch does not terminate in 4 minutes (z3 `unknown` on max/min/subtract over doubles), the Real
+branch finishes in 3 s.  So no condition that touches a float can ever be "Confirmed over all paths" with the
+stock settings.  This launcher therefore (C06D_REALS=1, the default)
+    * removes the FP alternative: a symbolic float is a real number (inf / nan stay separate concrete cases),
+    * switches off the cap: "Confirmed over all paths" then means: confirmed over the REALS.
+That is the same reading as everywhere else in /verif (vlib.core.REAL_NOTE): nothing is claimed about
+rounding.  Where the dates are multiples of 0.25 below 2**50 (or ints) every float64 operation of the code
+under analysis (max, min, ==, one subtraction) is exact, so on such inputs the real model IS float64.
 """
 import logging
 import os
@@ -21,8 +27,10 @@ if __name__ == '__main__':
     logging.disable(logging.CRITICAL)
     if os.environ.get('C06D_REALS', '1') == '1':
         import crosshair.libimpl.builtinslib as _B
+        from crosshair.statespace import StateSpace as _S
 
         _B._PYTYPE_TO_WRAPPER_TYPE[float] = ((_B.RealBasedSymbolicFloat, 1.0),)
+        _S.cap_result_at_unknown = lambda self: None
     from crosshair.main import main
 
     sys.argv = ['crosshair'] + sys.argv[1:]
